@@ -54,8 +54,46 @@ func runC12(c *Ctx) {
 		c.MP(fn, "traversal ends successfully only at the end or when the callback said stop", c.SuccessReturns(fn), 1,
 			GLoopDone(loop), GFalse("call(f)(ι, t.nodes[ι])#0"))
 	}
+	fixedtreeProofRules(c, "R12.2", "R12.3")
+	// R12.4 -------------------------------------------------------------------------------------
+	c.Rule("R12.4", "BoundsGuard")
+	if fn := c.Need("util/fixedtree.(*Writer).Add"); fn != nil {
+		c.MP(fn, "node stored only inside the slice", c.StoresD(fn, "&g.nodes[index]"), 1, GCmp("index", "<", "len(g.nodes)"))
+		c.StoredIs(fn, "stored node has its hash cleared (regenerated later)", c.StoresD(fn, "&g.nodes[index]"), 1, "n.SetHash(nil)")
+	}
+	if fn := c.Need("util/fixedtree.(*Tree).Set"); fn != nil {
+		c.MP(fn, "node stored only inside the slice", c.StoresD(fn, "&t.nodes[index]"), 1, GCmp("index", "<", "len(t.nodes)"))
+	}
+	if fn := c.Need("util/fixedtree.(*Writer).shrinkNodes"); fn != nil {
+		// dropping the last slot is only sound after the tail was shifted over the empty slot
+		trunc := c.StoresD(fn, "&g.nodes")
+		idx := "φ((↺ + 1)|0|↺)"
+		c.MP(fn, "last slot dropped only after the tail was shifted down (or the empty slot is the last one)", trunc, 1,
+			GCalled("copy(g.nodes["+idx+":], g.nodes[("+idx+" + 1):])"), GCmp(idx, ">=", "(len(g.nodes) - 1)"))
+		c.MP(fn, "a slot is dropped only if it is empty", trunc, 1, GNil("g.nodes["+idx+"]"))
+		c.Held(fn, nil, "shrinking under the writer lock", trunc, 1, "&g.l", LW)
+	}
+	if fn := c.Need("util/fixedtree.childrenNodes"); fn != nil {
+		var loads []ssa.Instruction
+		for _, in := range allInstrs(fn) {
+			if ia, ok := in.(*ssa.IndexAddr); ok && c.D(ia.X) == "nodes" {
+				loads = append(loads, in)
+			}
+		}
+		if c.Exists(fn, "child lookups", loads, 2) {
+			for _, in := range loads {
+				idx := c.D(in.(*ssa.IndexAddr).Index)
+				c.MP(fn, "child looked up only inside the slice", []ssaInstr{in}, 1, GCmp(idx, "<", "len(nodes)"))
+			}
+		}
+	}
+}
+
+// fixedtreeProofRules (shared by C12 and C13): the node hash binds key and both children, and
+// Proof.Prove/IsValid accept only a chain of recomputed hashes from the proved key to the root.
+func fixedtreeProofRules(c *Ctx, r2, r3 string) {
 	// R12.2 -------------------------------------------------------------------------------------
-	c.Rule("R12.2", "Dependence")
+	c.Rule(r2, "Dependence")
 	if fn := c.Need("util/fixedtree.nodeHash"); fn != nil {
 		calls := c.CallsTo(fn, "util/valuehash.NewSHA256")
 		if c.Exists(fn, "digest computed", calls, 1) {
@@ -91,7 +129,7 @@ func runC12(c *Ctx) {
 		c.ForEach(fn, "every node hashed", "(ι < len(nodes))", 1, GOkTo("util/fixedtree.generateNodeHash"))
 	}
 	// R12.3 -------------------------------------------------------------------------------------
-	c.Rule("R12.3", "MustPass")
+	c.Rule(r3, "MustPass")
 	if fn := c.Need("util/fixedtree.(Proof).Prove"); fn != nil {
 		succ := c.SuccessReturns(fn)
 		c.MP(fn, "proved only for a non-empty node path", succ, 1, GCmp("len(p.filterNodes(key))", ">=", "1"))
@@ -133,37 +171,5 @@ func runC12(c *Ctx) {
 			c.MP(fn, "valid proof: no duplicates", succ, 1, GFalse(c.D(ifi.Cond)))
 		}
 		c.ForEach(fn, "each present node validated", "(ι < len(p.nodes))", 1, GOk("p.nodes[ι].IsValid(b)"), GNil("p.nodes[ι]"))
-	}
-	// R12.4 -------------------------------------------------------------------------------------
-	c.Rule("R12.4", "BoundsGuard")
-	if fn := c.Need("util/fixedtree.(*Writer).Add"); fn != nil {
-		c.MP(fn, "node stored only inside the slice", c.StoresD(fn, "&g.nodes[index]"), 1, GCmp("index", "<", "len(g.nodes)"))
-		c.StoredIs(fn, "stored node has its hash cleared (regenerated later)", c.StoresD(fn, "&g.nodes[index]"), 1, "n.SetHash(nil)")
-	}
-	if fn := c.Need("util/fixedtree.(*Tree).Set"); fn != nil {
-		c.MP(fn, "node stored only inside the slice", c.StoresD(fn, "&t.nodes[index]"), 1, GCmp("index", "<", "len(t.nodes)"))
-	}
-	if fn := c.Need("util/fixedtree.(*Writer).shrinkNodes"); fn != nil {
-		// dropping the last slot is only sound after the tail was shifted over the empty slot
-		trunc := c.StoresD(fn, "&g.nodes")
-		idx := "φ((↺ + 1)|0|↺)"
-		c.MP(fn, "last slot dropped only after the tail was shifted down (or the empty slot is the last one)", trunc, 1,
-			GCalled("copy(g.nodes["+idx+":], g.nodes[("+idx+" + 1):])"), GCmp(idx, ">=", "(len(g.nodes) - 1)"))
-		c.MP(fn, "a slot is dropped only if it is empty", trunc, 1, GNil("g.nodes["+idx+"]"))
-		c.Held(fn, nil, "shrinking under the writer lock", trunc, 1, "&g.l", LW)
-	}
-	if fn := c.Need("util/fixedtree.childrenNodes"); fn != nil {
-		var loads []ssa.Instruction
-		for _, in := range allInstrs(fn) {
-			if ia, ok := in.(*ssa.IndexAddr); ok && c.D(ia.X) == "nodes" {
-				loads = append(loads, in)
-			}
-		}
-		if c.Exists(fn, "child lookups", loads, 2) {
-			for _, in := range loads {
-				idx := c.D(in.(*ssa.IndexAddr).Index)
-				c.MP(fn, "child looked up only inside the slice", []ssaInstr{in}, 1, GCmp(idx, "<", "len(nodes)"))
-			}
-		}
 	}
 }
